@@ -51,6 +51,7 @@ class World:
         self.thread_of = lambda: "main"
         self.call_of = lambda: None   # id of the reporter-side call that is in progress
         self.fault_fired = []
+        self.fault_log = []      # (seq, target, method, test id) of every injected fault, in world order
 
     def tick(self):
         self.seq += 1
@@ -131,6 +132,7 @@ class _Base:
             w.pre_hook(self, method)
         if self._faults is not None and self._faults.check(method):
             w.fault_fired.append((self._name, method))
+            w.fault_log.append((w.tick(), self._name, method, None if test is None else test_id_of(test)))
             raise TargetFault(f"{self._name}.{method} fault")
         ev = Event(
             w.tick(), w.thread_of(), self._name, method,
